@@ -56,3 +56,12 @@ Theorem C02_equivalence_classes_preserve_the_token : forall a ec al,
   forall i n last, scan (nview a) i w1 n last = scan (nview a) i w2 n last.
 Proof. exact ec_consistent_scan. Qed.
 Print Assumptions C02_equivalence_classes_preserve_the_token.
+
+(** Translating every byte to its class first (the yy_ec lookup of the generated
+    scanner) does not change the token. *)
+Theorem C02_scanning_class_representatives_is_scanning_bytes : forall a ec al,
+  ec_consistent a ec al = true ->
+  forall w, Forall (fun b => In b al) w ->
+  forall i n last, scan (nview a) i (map (ec_rep ec al) w) n last = scan (nview a) i w n last.
+Proof. exact ec_rep_scan. Qed.
+Print Assumptions C02_scanning_class_representatives_is_scanning_bytes.
